@@ -12,6 +12,18 @@ import Tickit.Driver.Common
          flush are pairwise disjoint, and every cell the flush changed was written by the window that owns it in the
          composition (the writer is identified by the foreground tag `id + 1` every window draws with) and lies in
          the damaged region (the rectangles handed to the root).
+  Two clauses keep state of their own, fed only by the operation lines and the implementation's observations (never by
+  the model state):
+    z-order (C01, also run for C02)  an abstract child list per window: the implementation's lists as observed after the
+         previous flush, new windows inserted first (last with `l`), closed windows removed, and at the flush the restack
+         requests made since applied *in the order they were made* (raise / lower = one step, raise_to_front,
+         lower_to_back; a request whose window or an ancestor of it was closed meanwhile is dropped); the child lists the
+         implementation reports after the flush must be these.
+    damage (C02)  an abstract damage region (rectangles in root coordinates, reset at every flush) accumulated from the
+         operations by the property's own definition - an expose of `e` in window `w` damages `e ∩ w` clipped to the
+         bounds of every ancestor, nothing when `w` or an ancestor is hidden (`exposedRegion`, the executable
+         `WinTree.ExposedRegion`) - with sound over-approximations for restacks and scrolls; every rectangle handed to
+         a handler and every cell the flush changed must lie inside it.
 -/
 namespace Tickit.Driver.WinEngine
 open Tickit Tickit.Driver Tickit.WinTree Tickit.WinRB Tickit.WinFlush
@@ -180,6 +192,11 @@ structure DSt where
   closed : Array Bool := #[]
   prevGrid : Option (Array (Array Cell)) := none     -- the implementation's grid before this operation
   unclipped : Bool := false     -- the history scrolled a region extending beyond an ancestor's bounds (known finding)
+  -- specification state: from the operation lines and the implementation's observations only
+  obsTree : Option Tree := none                      -- the implementation's tree as observed after the previous operation
+  zKids : Array (List Id) := #[]                     -- abstract child lists (front-most first), by parent id
+  zReqs : List (Change × Id) := []                   -- restack requests made since the previous flush, oldest first
+  dmg : List Rect := []                              -- abstract damage since the previous flush, root coordinates
 deriving Inhabited
 
 def mkBeh (behs : Array (Option (List Instr))) (shifts : Array (List (Rect × Int × Int))) : Id → Rect → List DrawOp :=
@@ -391,6 +408,248 @@ def scrollSticksOut (t : Tree) (id : Id) (rect : Option Rect) : Bool :=
     | none => false
     | some reg => sticksOut t (t.wins.size + 1) id reg
 
+/-! ### abstract z-order: restack requests take effect in the order they were made -/
+
+def reqKind? (op : String) : Option Change :=
+  if op = "raise" then some .raise else if op = "raisefront" then some .raiseFront
+  else if op = "lower" then some .lower else if op = "lowerback" then some .lowerBack else none
+
+def reqName : Change → String
+  | .raise => "raise" | .raiseFront => "raisefront" | .lower => "lower" | .lowerBack => "lowerback"
+  | .insertFirst => "insert-first" | .insertLast => "insert-last" | .remove => "remove"
+
+/-- An observed window that is not closed. -/
+def liveWin? (t : Tree) (id : Id) : Option Win :=
+  match t.wins[id]? with
+  | some w => if w.isClosed then none else some w
+  | none => none
+
+def kidsOf (t : Tree) : Array (List Id) := t.wins.map (·.children)
+
+def setKids (a : Array (List Id)) (i : Nat) (v : List Id) : Array (List Id) :=
+  let a := if i < a.size then a else a ++ Array.replicate (i + 1 - a.size) []
+  a.setIfInBounds i v
+
+/-- Was the window, or an ancestor of it, closed?  (A closed window is observed as a hidden orphan: `parseTree`.) -/
+def closedAbove (t : Tree) : Nat → Id → Bool
+  | 0, _ => true
+  | fuel + 1, id =>
+    match t.wins[id]? with
+    | none => true
+    | some w =>
+      if w.isClosed then true
+      else match w.parent with
+        | some p => closedAbove t fuel p
+        | none => false
+
+/-- The abstract meaning of one restack request on the child list of the window's parent. -/
+def restackList (ch : Change) (cs : List Id) (w : Id) : List Id :=
+  if !cs.contains w then cs else
+  match ch with
+  | .raise => match listRaise cs w with | .ok x => x | .ub _ => cs     -- one step towards the front
+  | .lower => listLower cs w                                            -- one step towards the back
+  | .raiseFront => w :: cs.erase w
+  | .lowerBack => cs.erase w ++ [w]
+  | _ => cs
+
+/-- Is the request still standing at the flush (`t`: the tree observed just before it)? -/
+def reqStands (t : Tree) (w : Id) : Bool := !(closedAbove t (t.wins.size + 1) w)
+
+def applyReqs (t : Tree) (kids : Array (List Id)) (reqs : List (Change × Id)) : Array (List Id) :=
+  reqs.foldl (fun kids (ch, w) =>
+    if !(reqStands t w) then kids else
+    match (t.wins[w]?).bind (·.parent) with
+    | none => kids
+    | some p => setKids kids p (restackList ch (kids.getD p []) w)) kids
+
+def showIds (l : List Id) : String := if l.isEmpty then "-" else ".".intercalate (l.map toString)
+
+/-- At a flush: the child lists the implementation reports are the abstract lists with the requests applied in the order
+    made.  `pre` is the implementation's tree as observed just before the flush. -/
+def specZOrder (d : DSt) (pre : Tree) (o : ImplObs) : String :=
+  let want := applyReqs pre d.zKids d.zReqs
+  let bad := (List.range o.tree.wins.size).findSome? fun i =>
+    match liveWin? o.tree i with
+    | none => none
+    | some w =>
+      let exp := want.getD i []
+      if w.children = exp then none
+      else
+        let rs := d.zReqs.filter (fun (_, x) => reqStands pre x)
+        let made := if rs.isEmpty then "no restack request is pending"
+          else "the restack requests in the order made (" ++ ", ".intercalate (rs.map fun (ch, x) => s!"{reqName ch} {x}") ++ ")"
+        some s!"children of window {i} are {showIds w.children} after the flush; the list before the requests ({showIds (d.zKids.getD i [])}) and {made} give {showIds exp}"
+  bad.getD ""
+
+/-- The abstract child lists after an operation other than `new` / `flush` (`pre`, `t`: the implementation's tree as
+    observed before and after it). -/
+def zStep (kids : Array (List Id)) (pre t : Tree) (ts : List String) : Array (List Id) :=
+  match ts with
+  | ["win", id, _, _, _, _, _, flags, _] =>
+    match id.toNat? with
+    | some id =>
+      let kids := setKids kids id []
+      match (t.wins[id]?).bind (·.parent) with
+      | some p =>
+        let cs := (kids.getD p []).erase id
+        setKids kids p (if flags.toList.contains 'l' then cs ++ [id] else id :: cs)
+      | none => kids
+    | none => kids
+  | ["close", id] =>
+    match id.toNat? with
+    | some id =>
+      match (pre.wins[id]?).bind (·.parent) with
+      | some p => setKids kids p ((kids.getD p []).erase id)
+      | none => kids
+    | none => kids
+  | _ => kids
+
+/-! ### abstract damage: what the operations since the previous flush damaged, by the property's own definition -/
+
+/-- Executable `WinTree.ExposedRegion`: an expose of `e` (`none`: everything) in window `id` damages `e ∩ id`, translated
+    up and clipped to the bounds of every ancestor, in root coordinates; nothing when `id` or an ancestor is hidden or
+    the chain does not end in the root window. -/
+def exposedRegion (t : Tree) : Nat → Id → Option Rect → Option Rect
+  | 0, _, _ => none
+  | fuel + 1, id, e =>
+    match liveWin? t id with
+    | none => none
+    | some w =>
+      let self : Rect := ⟨0, 0, w.rect.lines, w.rect.cols⟩
+      match (match e with | some e => Rect.intersect self e | none => some self) with
+      | none => none
+      | some dmg =>
+        if !w.isVisible then none
+        else match w.parent with
+          | some p => exposedRegion t fuel p (some (dmg.translate w.rect.top w.rect.left))
+          | none => if id = 0 then some dmg else none
+
+def regionOf (t : Tree) (id : Id) (e : Option Rect) : List Rect :=
+  match exposedRegion t (t.wins.size + 1) id e with
+  | some r => [r]
+  | none => []
+
+/-- Window `w`'s rectangle `r` (in its parent's coordinates) exposed in its parent. -/
+def inParent (t : Tree) (w : Win) (r : Rect) : List Rect :=
+  match w.parent with
+  | some p => regionOf t p (some r)
+  | none => []
+
+/-- What a visible window's own area damages in its parent (creation, closing, restacking). -/
+def ownArea (t : Tree) (id : Id) : List Rect :=
+  match liveWin? t id with
+  | some w => if w.isVisible then inParent t w w.rect else []
+  | none => []
+
+/-- The damage of one operation other than `new` / `flush` (`pre`, `t`: the implementation's tree as observed before and
+    after it).  Scrolls: the scrolled rectangle clipped to every ancestor (what is repainted lies inside it, and pending
+    damage inside it only moves within it).  Restack requests: the window's area when the request is made, and again at
+    the flush (`flushDamage`). -/
+def opDamage (pre t : Tree) (ts : List String) : List Rect :=
+  match ts with
+  | ["win", id, _, _, _, _, _, _, _] =>
+    match id.toNat? with
+    | some id => ownArea t id
+    | none => []
+  | ["resize", lines, cols] =>
+    match ints? [lines, cols], liveWin? pre 0 with
+    | some [l, c], some ow =>
+      -- the strips `on_term_resize` exposes: together exactly the cells the terminal gained
+      (if l > ow.rect.lines then regionOf t 0 (some ⟨ow.rect.lines, 0, l - ow.rect.lines, c⟩) else []) ++
+      (if c > ow.rect.cols then regionOf t 0 (some ⟨0, ow.rect.cols, ow.rect.lines, c - ow.rect.cols⟩) else [])
+    | _, _ => []
+  | op :: idS :: rest =>
+    match idS.toNat? with
+    | none => []
+    | some id =>
+      if op = "close" ∧ rest.isEmpty then ownArea pre id
+      else if op = "show" ∧ rest.isEmpty then regionOf t id none
+      else if op = "hide" ∧ rest.isEmpty then
+        match liveWin? t id with
+        | some w => inParent t w w.rect
+        | none => []
+      else if (reqKind? op).isSome ∧ rest.isEmpty then ownArea t id
+      else if op = "expose" ∧ rest.isEmpty then regionOf t id none
+      else if (op = "scroll" ∨ op = "scrollch") ∧ rest.length = 2 then regionOf pre id none
+      else
+        match rest with
+        | a :: b :: c :: e :: more =>
+          match ints? [a, b, c, e] with
+          | some [a, b, c, e] =>
+            let r : Rect := ⟨a, b, c, e⟩
+            if op = "expose" ∧ more.isEmpty then regionOf t id (some r)
+            else if op = "geom" ∧ more.isEmpty then
+              match liveWin? pre id, liveWin? t id with
+              | some ow, some nw => inParent t nw ow.rect ++ inParent t nw r
+              | _, _ => []
+            else if op = "scrollrect" ∧ more.length = 3 then regionOf pre id (some r)
+            else []
+          | _ => []
+        | _ => []
+  | _ => []
+
+/-- The damage the flush itself adds before it renders: every standing restack request exposes its window's area. -/
+def flushDamage (pre : Tree) (reqs : List (Change × Id)) : List Rect :=
+  reqs.flatMap fun (_, w) => if reqStands pre w then ownArea pre w else []
+
+/-- Per-cell table of a region over the `lines × cols` grid. -/
+structure Mask where
+  lines : Nat := 0
+  cols : Nat := 0
+  bits : Array Bool := #[]
+
+def Mask.get (m : Mask) (l c : Nat) : Bool := l < m.lines && c < m.cols && m.bits.getD (l * m.cols + c) false
+
+def Mask.ofRects (lines cols : Nat) (rs : List Rect) : Mask := Id.run do
+  let mut bits : Array Bool := Array.replicate (lines * cols) false
+  for r in rs do
+    let t := (max r.top 0).toNat
+    let b := (min r.bottom (lines : Int)).toNat
+    let lft := (max r.left 0).toNat
+    let rgt := (min r.right (cols : Int)).toNat
+    for l in [t:b] do
+      for c in [lft:rgt] do
+        bits := bits.setIfInBounds (l * cols + c) true
+  return { lines := lines, cols := cols, bits := bits }
+
+def showRects (rs : List Rect) : String :=
+  if rs.isEmpty then "nothing" else
+  "; ".intercalate ((rs.take 8).map fun r => s!"{r.top},{r.left},{r.lines},{r.cols}") ++ (if rs.length > 8 then "; ..." else "")
+
+/-- C02, the damaged region stated independently of what the implementation chose to repaint: every rectangle handed to
+    a window (the root window is handed every rectangle the flush repaints), and every cell the flush changed, lies inside
+    the abstract damage region `dmg`. -/
+def specDamage (d : DSt) (dmg : List Rect) (o : ImplObs) : String :=
+  match o.grid with
+  | none => ""
+  | some g =>
+    let m := Mask.ofRects g.size (g.getD 0 #[]).size dmg
+    let e := o.evs.findSome? fun (id, r) =>
+      -- the window's top-left corner in root coordinates
+      let (ot, ol) := ((id :: ancestors o.tree (o.tree.wins.size + 1) id).filterMap (o.tree.wins[·]?)).foldl
+        (fun (a : Int × Int) w => (a.1 + w.rect.top, a.2 + w.rect.left)) (0, 0)
+      (List.range r.lines.toNat).findSome? fun (i : Nat) =>
+        (List.range r.cols.toNat).findSome? fun (j : Nat) =>
+          let l := ot + r.top + (i : Int)
+          let c := ol + r.left + (j : Int)
+          if 0 ≤ l ∧ 0 ≤ c ∧ m.get l.toNat c.toNat then none
+          else some s!"window {id} was handed the rectangle {r.top},{r.left},{r.lines},{r.cols} but its cell ({r.top + (i : Int)},{r.left + (j : Int)}) (terminal cell ({l},{c})) is outside the region damaged since the previous flush (the operations damaged: {showRects dmg})"
+    match e with
+    | some msg => msg
+    | none =>
+      match d.prevGrid with
+      | none => ""
+      | some pg =>
+        let bad := (List.range g.size).findSome? fun (l : Nat) =>
+          (List.range (g.getD l #[]).size).findSome? fun (c : Nat) =>
+            if (g.getD l #[]).getD c Cell.never = (pg.getD l #[]).getD c Cell.never ∨ m.get l c then none
+            else some s!"cell ({l},{c}) changed outside the region damaged since the previous flush (the operations damaged: {showRects dmg})"
+        bad.getD ""
+
+/-- The exposes the handlers made during a flush (events as the implementation reports them): damage for the next one. -/
+def handlerDamage (behs : Array (Option (List Instr))) (closed : Array Bool) (t : Tree) (evs : List Ev) : List Rect :=
+  evs.flatMap fun (id, rect) => (mkBehExp behs closed id rect).flatMap fun (i, r) => regionOf t i r
+
 /-! ### stepping -/
 
 def parsePen (tok : String) : Option Pen :=
@@ -554,6 +813,7 @@ def runOp (d : DSt) (ts : List String) : DSt × String :=
 
 def step (d : DSt) (ts : List String) (impl : String) : DSt × String × String :=
   let isFlush := ts = ["flush"]
+  let isNew := ts.head? = some "new"
   let pens : Array (Option Pen) := match d.st with | some st => st.pens | none => #[]
   let (d', m) := runOp d ts
   let pens' : Array (Option Pen) := match d'.st with | some st => st.pens | none => pens
@@ -566,15 +826,40 @@ def step (d : DSt) (ts : List String) (impl : String) : DSt × String × String 
       else "unparsable implementation observation"
     | some o =>
       if !isFlush then ""
-      else if d'.prop = 1 then
-        let m := specC01 d' pens' o
-        if m ≠ "" ∧ d'.unclipped then m ++ " [the history scrolled a region extending beyond an ancestor's bounds]" else m
-      else specC02 d o
+      else
+        -- the implementation's tree as observed just before this flush
+        let pre := d.obsTree.getD o.tree
+        let own :=
+          if d'.prop = 1 then
+            let m := specC01 d' pens' o
+            if m ≠ "" ∧ d'.unclipped then m ++ " [the history scrolled a region extending beyond an ancestor's bounds]" else m
+          else
+            let m := specC02 d o
+            if m ≠ "" then m else specDamage d (flushDamage pre d.zReqs ++ d.dmg) o
+        if own ≠ "" then own else specZOrder d pre o
   -- remember the implementation's grid for the next flush
   let d' := match o with
     | some o => (match o.grid with | some g => { d' with prevGrid := some g } | none => d')
     | none => d'
-  let d' := if ts.head? = some "new" then (match o with | some o => { d' with prevGrid := o.grid } | none => { d' with prevGrid := none }) else d'
+  let d' := if isNew then (match o with | some o => { d' with prevGrid := o.grid } | none => { d' with prevGrid := none }) else d'
+  -- the specification state: from the operation line and the implementation's observations
+  let d' := match o with
+    | none => d'
+    | some o =>
+      let t := o.tree
+      if isNew then
+        { d' with obsTree := some t, zKids := kidsOf t, zReqs := [], dmg := regionOf t 0 none }    -- a new root starts fully damaged
+      else if isFlush then
+        { d' with obsTree := some t, zKids := kidsOf t, zReqs := [], dmg := handlerDamage d'.behs d'.closed t o.evs }
+      else
+        let pre := d.obsTree.getD t
+        let reqs := match ts with
+          | [op, id] =>
+            match reqKind? op, id.toNat? with
+            | some ch, some id => if ((t.wins[id]?).bind (·.parent)).isSome then d.zReqs ++ [(ch, id)] else d.zReqs
+            | _, _ => d.zReqs
+          | _ => d.zReqs
+        { d' with obsTree := some t, zKids := zStep d.zKids pre t ts, zReqs := reqs, dmg := opDamage pre t ts ++ d.dmg }
   (d', m, sv)
 
 def engine : Engine := { σ := DSt, init := {}, step := step }
